@@ -51,7 +51,35 @@ pub fn run(seed: u64, n: usize, sink: &mut Sink) {
             }
         };
         let ts = build_train(&sc.tr);
+        #[cfg(feature = "hooks")]
+        altrios_core::meet_pass::est_times::verif_hook::start();
         let res = catch(std::panic::AssertUnwindSafe(|| make_est_times(ts, &net)));
+        #[cfg(feature = "hooks")]
+        {
+            // the two shortest-path passes (update_times_forward / update_times_backward) against their model
+            // (coq/model/EstUpdate.v), on the node array make_est_times handed them (hook H3)
+            let rec = altrios_core::meet_pass::est_times::verif_hook::take();
+            if let (Some((pre, t0)), Ok(Ok((en, _)))) = (rec.last(), &res) {
+                if pre.len() <= 260 {
+                    let set: Vec<&str> = pre.iter().map(|e| cb(!e.time_sched.value.is_nan())).collect();
+                    let mut o = Outs::new();
+                    o.z("n", en.val.len() as i64);
+                    for (i, e) in en.val.iter().enumerate() {
+                        o.f(&format!("n{}.time_sched", i), e.time_sched.value, 1.0); o.f(&format!("n{}.time_to_next", i), e.time_to_next.value, 1.0);
+                        o.f(&format!("n{}.dist_to_next", i), e.dist_to_next.value, 1.0);
+                        o.z(&format!("n{}.idx_next", i), e.idx_next as i64); o.z(&format!("n{}.idx_next_alt", i), e.idx_next_alt as i64);
+                        o.z(&format!("n{}.idx_prev", i), e.idx_prev as i64); o.z(&format!("n{}.idx_prev_alt", i), e.idx_prev_alt as i64);
+                    }
+                    let relinked = pre.iter().zip(en.val.iter()).filter(|(a, b)| a.idx_next != b.idx_next || a.idx_prev != b.idx_prev).count();
+                    let mut tg = sc.tags.clone(); tg.push(format!("nodes_relinked_by_the_passes:{}", match relinked { 0 => "0", 1..=4 => "1-4", _ => "5+" }));
+                    tg.push(format!("nodes:{}", match pre.len() { 0..=15 => "<=15", 16..=40 => "16-40", 41..=100 => "41-100", _ => ">100" }));
+                    sink.put(Case { id: format!("est{}.passes", k), kind: "update_times".into(),
+                        coq: format!("x_update_times {}%N {} [{}] {}", 4 * pre.len() + 10, coq_enodes(pre), set.join("; "), cf(t0.value)),
+                        outcome: Outcome::Ok(o), tags: tg, input: json!({"spec": sc.sp.to_json(), "train": sc.tr.to_json(), "passes_only": true}),
+                        oracle_fail: vec![], known: vec![], in_domain: true });
+                }
+            }
+        }
         match res {
             Ok(Ok((en, _))) => {
                 let v = &en.val;
